@@ -22,6 +22,11 @@ Section Restate.
       | KVal _ _ _ =>
           let s := match prev with
                    | Some (KOut t st) => set_val s v (lookup (KOut t st) (s_vals s))
+                   | Some (KVal n2 t2 s2) =>
+                       match lookup (KVal n2 t2 s2) (s_vals s) with
+                       | Some x => set_val s v (Some x)
+                       | None => s
+                       end
                    | _ => s end in
           let cur := lookup v (s_vals s) in
           let s := set_last s cur in
@@ -663,57 +668,61 @@ Section Inv.
   Proof. intros I A. apply mem_lookup. apply (i_inputs I). exact A. Qed.
 
   (* a named value vertex *)
+  Definition val_take (prev : option vkey) (v : vkey) (s : rstate) : rstate :=
+    match prev with
+    | Some (KOut t' st') => set_val s v (lookup (KOut t' st') (s_vals s))
+    | Some (KVal n2 t2 s2) =>
+        match lookup (KVal n2 t2 s2) (s_vals s) with
+        | Some x => set_val s v (Some x)
+        | None => s
+        end
+    | _ => s end.
+
   Lemma step_val n t st prev final s :
     Inv s -> Wpre prev final s -> linkedp prev (KVal n t st) ->
     let v := KVal n t st in
-    let s1 := match prev with
-              | Some (KOut t' st') => set_val s v (lookup (KOut t' st') (s_vals s))
-              | _ => s end in
+    let s1 := val_take prev v s in
     let cur := lookup v (s_vals s1) in
     let s2 := set_last s1 cur in
     let final' := match cur with Some x => Some x | None => final end in
     Inv s2 /\ s_trace s2 = s_trace s /\ Wpre (Some v) final' s2.
   Proof.
     intros I WP LK v.
-    assert (VALUED : forall x, lookup v (s_vals s) = Some x ->
-              match prev with Some (KOut _ _) => False | _ => True end ->
-              let s1 := match prev with
-                        | Some (KOut t' st') => set_val s v (lookup (KOut t' st') (s_vals s))
-                        | _ => s end in
+    (* whenever the vertex ends up holding a good value *)
+    assert (VALUED : forall s1 x, Inv s1 -> s_trace s1 = s_trace s -> lookup v (s_vals s1) = Some x ->
               let cur := lookup v (s_vals s1) in
               let s2 := set_last s1 cur in
               let final' := match cur with Some x => Some x | None => final end in
               Inv s2 /\ s_trace s2 = s_trace s /\ Wpre (Some v) final' s2).
-    { intros x Q NP.
-      assert (E : match prev with
-                  | Some (KOut t' st') => set_val s v (lookup (KOut t' st') (s_vals s))
-                  | _ => s end = s).
-      { destruct prev as [[| | | |]|]; try reflexivity. contradiction. }
-      rewrite E. cbv zeta. rewrite Q. split; [exact I|]. split; [reflexivity|].
+    { intros s1 x I1 T1 Q. cbv zeta. rewrite Q. split; [exact I1|]. split; [exact T1|].
       unfold v. cbn [Wpre s_last set_last s_vals s_trace]. split; [symmetry; exact Q|].
-      exists x. split; [reflexivity|]. apply (i_vals I). exact Q. }
+      exists x. split; [reflexivity|]. apply (i_vals I1). exact Q. }
+    assert (TAKE : forall x, good (s_trace s) v x ->
+              let s1 := set_val s v (Some x) in
+              let cur := lookup v (s_vals s1) in
+              let s2 := set_last s1 cur in
+              let final' := match cur with Some x => Some x | None => final end in
+              Inv s2 /\ s_trace s2 = s_trace s /\ Wpre (Some v) final' s2).
+    { intros x G. apply (VALUED (set_val s v (Some x)) x).
+      - apply Inv_set_val; assumption.
+      - reflexivity.
+      - cbn. rewrite lookup_insert, Base.eqb_refl. reflexivity. }
     destruct prev as [p|]; [|simpl in LK; discriminate].
     simpl in LK. pose proof (in_keys_erule _ _ LK) as ER.
     destruct p as [|ft|n' t' st'|t' st'|t' st']; simpl in ER.
-    - destruct (@input_mem s _ I ER) as [x Q]. apply (VALUED x Q Logic.I).
-    - destruct (mem_lookup _ _ (WP _ LK)) as [x Q]. apply (VALUED x Q Logic.I).
+    - destruct (@input_mem s _ I ER) as [x Q]. apply (VALUED s x I eq_refl Q).
+    - destruct (mem_lookup _ _ (WP _ LK)) as [x Q]. apply (VALUED s x I eq_refl Q).
     - destruct ER as (-> & -> & ->). destruct WP as [WL (y & Fy & Gy)].
-      destruct (lookup v (s_vals s)) as [x|] eqn:Q.
-      + apply (VALUED x eq_refl Logic.I).
-      + cbv zeta. rewrite Q. split; [exact I|]. split; [reflexivity|].
-        unfold v. cbn [Wpre s_last set_last s_vals s_trace]. split; [symmetry; exact Q|].
-        exists y. split; [exact Fy|]. eapply good_T4. exact Gy.
+      unfold val_take. destruct (lookup (KVal n' t' st') (s_vals s)) as [x0|] eqn:Q0.
+      + apply TAKE. unfold v. eapply good_T4. apply (i_vals I). exact Q0.
+      + destruct (lookup v (s_vals s)) as [x|] eqn:Q.
+        * pose proof (VALUED s x I eq_refl Q) as X. cbv zeta in X. rewrite Q in X. exact X.
+        * cbv zeta. try rewrite Q. split; [exact I|]. split; [reflexivity|].
+          unfold v. cbn [Wpre s_last set_last s_vals s_trace]. split; [symmetry; exact Q|].
+          exists y. split; [exact Fy|]. eapply good_T4. exact Gy.
     - contradiction.
     - destruct ER as [-> ->]. destruct WP as (x & Q & LS).
-      cbv zeta. rewrite Q.
-      assert (G : good (s_trace s) v x).
-      { unfold v. apply good_T1. apply (i_vals I). exact Q. }
-      pose proof (@Inv_set_val s v x I G) as I1.
-      assert (Q1 : lookup v (s_vals (set_val s v (Some x))) = Some x).
-      { cbn. rewrite lookup_insert, Base.eqb_refl. reflexivity. }
-      rewrite Q1. split; [exact I1|]. split; [reflexivity|].
-      unfold v. cbn [Wpre]. split; [symmetry; exact Q1|].
-      exists x. split; [reflexivity|]. exact G.
+      unfold val_take. rewrite Q. apply TAKE. unfold v. apply good_T1. apply (i_vals I). exact Q.
   Qed.
 
   (* a typed argument vertex *)
